@@ -109,10 +109,10 @@ func TestRegressC15(t *testing.T) {
 func TestRegressC16(t *testing.T) {
 	rec := evid.New("TestRegressC16", "C16", "saved strategies of the fixed C16 crashes")
 	for name, js := range map[string]string{
-		"F7c-malformed-percent":       `{"rollingUpdate":{"maxPodSchedulerFailure":"50%","slowStartAdditiveIncrease":"5 0%"},"reconcileFrequency":"-1s"}`,
-		"F7b-zero-slow-start":         `{"rollingUpdate":{"slowStartIntervalDuration":"0s"}}`,
+		"F7c-malformed-percent":        `{"rollingUpdate":{"maxPodSchedulerFailure":"50%","slowStartAdditiveIncrease":"5 0%"},"reconcileFrequency":"-1s"}`,
+		"F7b-zero-slow-start":          `{"rollingUpdate":{"slowStartIntervalDuration":"0s"}}`,
 		"F7a-manual-mode-with-timeout": `{"rollingUpdate":{},"canary":{"autoFail":{"canaryTimeout":"0s"}}}`,
-		"F7c-abc":                     `{"rollingUpdate":{"maxUnavailable":"abc"}}`,
+		"F7c-abc":                      `{"rollingUpdate":{"maxUnavailable":"abc"}}`,
 	} {
 		var s edsv1.ExtendedDaemonSetSpecStrategy
 		if err := json.Unmarshal([]byte(js), &s); err != nil {
@@ -129,9 +129,9 @@ func TestRegressC16(t *testing.T) {
 func TestRegressC18(t *testing.T) {
 	rec := evid.New("TestRegressC18", "C18", "saved populations of the fixed C18 defects (one unusable selector; pods of a deleted setting)")
 	for name, k := range map[string]c18Case{
-		"F9-bad-selector-no-nodes": {Settings: []c18Setting{{NS: "ns1", Name: "set-a", Selector: "zone=a", Ref: "foo"}, {NS: "ns1", Name: "set-b", Selector: "bad", Ref: "foo"}}, Order: []int{0, 1}, ListRev: make([]bool, 4)},
+		"F9-bad-selector-no-nodes":         {Settings: []c18Setting{{NS: "ns1", Name: "set-a", Selector: "zone=a", Ref: "foo"}, {NS: "ns1", Name: "set-b", Selector: "bad", Ref: "foo"}}, Order: []int{0, 1}, ListRev: make([]bool, 4)},
 		"F19-setting-deleted-pods-keep-it": {Settings: []c18Setting{{NS: "ns1", Name: "set-a", Selector: "zone=a", Ref: "foo", Res: "requests"}, {NS: "ns1", Name: "set-b", Selector: "zone=b", Ref: "foo", Res: "limits"}}, Nodes: []map[string]string{{"zone": "a"}, {"zone": "b"}}, Order: []int{0, 1}, ListRev: make([]bool, 4), Remove: []int{0}},
-		"F9-bad-selector-poisons":  {Settings: []c18Setting{{NS: "ns1", Name: "set-a", Selector: "zone=a", Ref: "foo"}, {NS: "ns1", Name: "set-b", Selector: "bad", Ref: "foo", CreatedAt: 1}}, Nodes: []map[string]string{{"zone": "a"}}, Order: []int{1, 0}, ListRev: make([]bool, 4)},
+		"F9-bad-selector-poisons":          {Settings: []c18Setting{{NS: "ns1", Name: "set-a", Selector: "zone=a", Ref: "foo"}, {NS: "ns1", Name: "set-b", Selector: "bad", Ref: "foo", CreatedAt: 1}}, Nodes: []map[string]string{{"zone": "a"}}, Order: []int{1, 0}, ListRev: make([]bool, 4)},
 	} {
 		vs, err := runC18(k)
 		regress(t, rec, name, vs, err, k.String())
